@@ -251,21 +251,34 @@ def strip_lean_comments(src: str) -> str:
     return ''.join(out)
 
 
-def scan_forbidden():
+def import_closure(roots):
+    """Lean source files of this package reachable through `import E2P...` from the given module names."""
+    seen, todo = {}, list(roots)
+    while todo:
+        m = todo.pop()
+        if m in seen:
+            continue
+        path = os.path.join(LEAN_DIR, *m.split('.')) + '.lean'
+        if not os.path.exists(path):
+            continue
+        seen[m] = path
+        for line in strip_lean_comments(open(path, encoding='utf-8').read()).splitlines():
+            mm = re.match(r'\s*import\s+(E2P(?:\.\w+)*|Driver)\s*$', line)
+            if mm:
+                todo.append(mm.group(1))
+    return seen
+
+
+def scan_forbidden(roots):
+    """Text scan (comments stripped) of every package file the given modules depend on."""
     hits = []
-    for root, _, files in os.walk(os.path.join(LEAN_DIR, 'E2P')):
-        for f in files:
-            if not f.endswith('.lean'):
-                continue
-            p = os.path.join(root, f)
-            src = strip_lean_comments(open(p, encoding='utf-8').read())
-            if '/Generated/' in p:
-                # string literals of generated tables may contain anything; only check declarations
-                src = '\n'.join(l for l in src.splitlines() if not l.lstrip().startswith('"'))
-            for ln, line in enumerate(src.splitlines(), 1):
-                if FORBIDDEN_RE.search(line):
-                    hits.append('%s:%d: %s' % (os.path.relpath(p, VERIF), ln, line.strip()[:120]))
-    p = os.path.join(LEAN_DIR, 'Driver.lean')
+    for m, p in sorted(import_closure(roots).items()):
+        src = strip_lean_comments(open(p, encoding='utf-8').read())
+        for ln, line in enumerate(src.splitlines(), 1):
+            if '/Generated/' in p and line.lstrip().startswith('"'):
+                continue    # string literals of generated tables may contain anything
+            if FORBIDDEN_RE.search(line):
+                hits.append('%s:%d: %s' % (os.path.relpath(p, VERIF), ln, line.strip()[:120]))
     return hits
 
 
@@ -293,7 +306,7 @@ def lean_build(prop_modules, tier='quick', want_driver=True) -> BuildResult:
         res.log += out
         for m in prop_modules:
             res.obligations += theorem_names(os.path.join(LEAN_DIR, 'E2P', 'Props', m + '.lean'))
-        res.scan_hits = scan_forbidden()
+        res.scan_hits = scan_forbidden(mods + ['Driver'])
         if res.props_ok:
             audit = os.path.join(LEAN_DIR, '.lake', 'audit_%s_%d.lean' % ('_'.join(prop_modules), os.getpid()))
             with open(audit, 'w') as f:
@@ -435,6 +448,9 @@ class Check:
                 self.violation(dict(case, why='real code differs from what the property demands'), cls)
             elif model != 'EUnmodelled' and got != model:
                 self.mismatch(stream, case)
+            for flag in cls.split(','):
+                if flag.strip().endswith('-bad'):      # a modelled external disagrees with the value the real library produced
+                    self.mismatch('external:' + flag.strip(), case)
             if ns < sample_cap and spec != '-':
                 self.sample(case, cap=40)
                 ns += 1
